@@ -215,6 +215,10 @@ def run(ctx: Ctx) -> None:
     ctx.check("C11.R7", wh, "client-initiated close: the client's close code reaches websocket.disconnect", stored and uses,
               "the disconnect code is derived from the stream state only: after a client-initiated close (e.g. code 1001) the application is told 1006", arm)
 
+    from . import c03
+
+    c03.run(Alias(ctx, "C11.R9", "the application always gets its websocket.disconnect: both protocols notify every stream they remove with StreamClosed (C03.R6) and the streams mark themselves closed before awaiting (C03.R5)", only={"C03.R5", "C03.R6"}))
+
     ctx.assume("not decided: the accept token value and extension negotiation (wsproto), header syntax corner cases inside split_comma_header")
     ctx.assume("frozen library fact: wsproto.handshake.WEBSOCKET_VERSION == b'13'")
     from . import typestate_rules
